@@ -825,7 +825,15 @@ def _squeeze(ex, path, args, kwargs, node, fn):
 
 @model("collections.OrderedDict", "OrderedDict", "thejoker.samples.OrderedDict")
 def _odict(ex, path, args, kwargs, node, fn):
-    return PyDict() if not args else args[0].copy()
+    if not args:
+        return PyDict()
+    a = args[0]
+    if isinstance(a, PyList) and a.tail is None and all(isinstance(p, PyList) and p.tail is None and len(p.items) == 2 for p in a.items):
+        d = PyDict()        # OrderedDict(iterable of (key, value) pairs): insertion order = iteration order
+        for p in a.items:
+            d = d.set(p.items[0], p.items[1])
+        return d
+    return a.copy()
 
 
 @model("numpy.stack", doc="stack([a0, a1, ...], axis=1)[r, c] = a_c[r]")
